@@ -322,6 +322,50 @@ def artefact_on_exit(prog, res):
               "written destination: a failed operation leaves an output file behind" % len(exits))
 
 
+def sparse_skip_conservation(prog, res):
+    """T3: zero bytes turned into a pending skip are neither lost nor doubled: every relative seek over the pending skip
+    is followed, before the counter is used again, by removing from the counter exactly what was sought; the final
+    flush seeks counter-1 and writes one zero byte."""
+    R = "T3.sparse-skip-conservation"
+    f = prog.fn("AIO_fwriteSparse")
+    rets = [strip_casts(r.get("e")) for b, i, r in f.returns() if r.get("e") is not None]
+    ctr = [e.get("n") for e in rets if e.get("k") == "ref" and e.get("rk") == "p"]
+    res.check(len(set(ctr)) == 1, R, "counter", f.loc, "the pending-skip counter is the parameter the function returns", "pending-skip counter not identified")
+    if len(set(ctr)) != 1:
+        return
+    C = ctr[0]
+    seeks = [(b, i, c) for b, i, c in f.calls(("fseeko", "fseek", "fseeko64", "_fseeki64")) if const_val(c["a"][2]) == 1]
+    res.check(len(seeks) >= 3, R, "seek-sites", f.loc, "%d relative seeks over pending zeroes" % len(seeks), "seek sites vanished (%d)" % len(seeks))
+    upd = [(b, i, x) for b, i, x in f.events(lambda y: y.get("k") == "asg") if strip_casts(x["lhs"]).get("n") == C and strip_casts(x["lhs"]).get("rk") == "p"]
+    for b, i, c in seeks:
+        amt = strip_casts(f.resolve_x(c["a"][1]))
+        whole = amt.get("k") == "ref" and amt.get("n") == C
+        k = const_val(amt)
+        # the first counter update reachable after the seek on each path
+        good = []
+        for b2, i2, x in upd:
+            if whole and x.get("op") == "=" and const_val(x["rhs"]) == 0:
+                good.append((b2, i2))
+            elif k is not None and x.get("op") == "-=" and const_val(x["rhs"]) == k:
+                good.append((b2, i2))
+        other = [(b2, i2) for b2, i2, x in upd if (b2, i2) not in good and x.get("op") != "+="]
+        # reads of the counter after the seek must come after a matching update; mismatching updates must not come first
+        reads_or_bad = other + [(rb, ri) for rb, ri, r in f.returns()] + [(b3, i3) for b3, i3, x in upd if x.get("op") == "+="]
+        ok = bool(good) and f.must_pass(via_roots=good, starts=[(b, i + 1)], targets=reads_or_bad)
+        what = "the whole counter" if whole else ("%d bytes" % k if k is not None else "an amount")
+        res.check(ok, R, "seek@%s" % c.get("l"), "%s:%s" % (f.file, c.get("l")), "after seeking over %s the counter is reduced by exactly that before it is used again" % what,
+                  "after seeking over %s the pending-skip counter is not reduced by the same amount: zero bytes are dropped from (or added to) the output" % what)
+    e = prog.fn("AIO_fwriteSparseEnd")
+    sk = [c for b, i, c in e.calls(("fseeko", "fseek", "fseeko64", "_fseeki64"))]
+    wr = [c for b, i, c in e.calls("fwrite")]
+    ok = len(sk) == 1 and len(wr) == 1
+    if ok:
+        a = strip_casts(e.resolve_x(sk[0]["a"][1]))
+        ok = a.get("k") == "bin" and a.get("op") == "-" and strip_casts(a["lhs"]).get("rk") == "p" and const_val(a["rhs"]) == 1 and const_val(wr[0]["a"][1]) == 1 and const_val(wr[0]["a"][2]) == 1
+    res.check(ok, R, "final-flush", e.loc, "the last pending skip is materialised as seek(counter - 1) + one zero byte", "final skip no longer accounts for every pending zero")
+    res.need(R, 6)
+
+
 def run(tier):
     res = Result("C19", tier)
     tus, info = extract(["programs", "common", "compress", "decompress"])
@@ -334,6 +378,7 @@ def run(tier):
     rm_disabled(prog, res)
     artefact_on_exit(prog, res)
     stdio_discipline(prog, res)
+    sparse_skip_conservation(prog, res)
     t4_common.run(prog, res, "T4.error-discipline", ["programs/fileio.c", "programs/fileio_asyncio.c"], 15)
     return res.finish(
         explanation="Order-of-effects rules on the CFG of the CLI's file pipeline: the source is removed only on the path "
